@@ -840,6 +840,10 @@ SHALLOW = {
 }
 
 
+# operators whose diagnosis does not come from the text-cleaning pass (with clean_text_values=no the reference-syntax pass is skipped as well)
+RAW_OK = {"choice-no-name", "dup-choice", "missing-list", "dup-sibling", "missing-name", "missing-type", "unknown-type", "extra-end", "mismatched-end",
+          "calc-no-calculation", "bad-param", "space-in-multi-choice", "no-label"}
+
 # ============================================================ generator
 
 
@@ -851,7 +855,11 @@ def _cases(draw):
                     p_table_list=0.03, p_params=0.4, p_search=0.0, p_entities=0.1, settings="some", p_extra_sheets=0.0)
         g = gen.G(draw, prof)
         form = gen.build_form(draw, prof, g=g)
-        return {"form": form, "spec": {"op": g.pick(OP_NAMES), "seed": g.integer(0, 65535)}}
+        op = g.pick(OP_NAMES)
+        if op in RAW_OK and g.p("_", 0.3):
+            # documented switch: cells taken as typed; the row a diagnosis cites must not depend on it
+            form.setdefault("settings", {})["clean_text_values"] = g.pick(["no", "false"])
+        return {"form": form, "spec": {"op": op, "seed": g.integer(0, 65535)}}
     if which == 7:
         return {"soup": build_soup(draw)}
     if which == 10:
